@@ -182,9 +182,9 @@ def run(replay=None):
     from . import dip_tracer as DT
     ntr, rtr = DT.judge_testsuite(C, V, wd)
     # B/C. literals
-    nl = 51
+    nl = 53
     lruns = [C.run_tlc(wd, "DipLitGen", LIT_CFG.format(ids="{" + ",".join(str(i) for i in range(1, nl + 1)) + "}", maxind=1, maxlines=2), extra=["-continue"]),
-             C.run_tlc(wd, "DipLitGen", LIT_CFG.format(ids="{2, 4, 16, 25, 36, 39}" if t == "quick" else "{2, 4, 8, 12, 16, 22, 25, 30, 36, 39, 40}",
+             C.run_tlc(wd, "DipLitGen", LIT_CFG.format(ids="{2, 4, 16, 25, 36, 39, 53}" if t == "quick" else "{2, 4, 8, 12, 16, 22, 25, 30, 36, 39, 40, 52, 53}",
                                                          maxind=2, maxlines=3), extra=["-continue"])]
     lrecs = []
     for r in lruns:
